@@ -16,7 +16,7 @@ import (
 	"verif/harness/hlsim"
 )
 
-var c04Passwords = []string{"", "a", "pw", "secret123", "p\x00q", "\xff\xfe", strings.Repeat("x", 71), strings.Repeat("Z", 72)}
+var c04Passwords = []string{"", "a", "pw", "secret123", "p\x00q", "\xff\xfe", strings.Repeat("x", 71), strings.Repeat("Z", 72), "\xffq"}
 
 // effectful requests an unauthenticated peer may append; each would be visible in the
 // snapshot or in an observer's inbox if it were executed.
